@@ -413,13 +413,16 @@ Please read the explanation here: https://github.com/AdguardTeam/AdGuardHome/wik
 }
 
 func (s *StatsCtx) flush() (cont bool, sleepFor time.Duration) {
-	id := s.unitIDGen()
-
 	s.confMu.Lock()
 	defer s.confMu.Unlock()
 
 	s.currMu.Lock()
 	defer s.currMu.Unlock()
+
+	// Get the ID under the locks, since it must not be older than the one of
+	// the current unit, which a clearing of the statistics could have replaced
+	// in the meantime.
+	id := s.unitIDGen()
 
 	ptr := s.curr
 	if ptr == nil {
